@@ -17,7 +17,7 @@ it, else the header MMR rewound to the body head.
   of outputs per block, shorter or longer than the cutoff height) the check returns exactly the
   height-based specification `txMaturity` of the body head's state, for every transaction.
 * `pool_maturity_fixed_on_competing_fork` — the branch the repair added, on its own.
-* `pool_maturity_fixed_agrees_partial` — both branches with the tree property as a hypothesis;
+* `pool_maturity_fixed_agrees_of_tree` — both branches with the tree property as a hypothesis;
   `header_chain_through_head` (from `isPath_of_path`, `isPath_prefix`, `isPath_unique`) proves that
   property: a header chain which holds the body head at the head's height holds the head's
   ancestors below it.
@@ -59,7 +59,7 @@ theorem bodyPath_check_eq (p : Params) (N n : Node) (_hb : N.blks = n.blks) (g :
 
 /-- **Both branches.**  `htree`: if the header chain holds the body head at the head's height, it
 holds the head's ancestors below it. -/
-theorem pool_maturity_fixed_agrees_partial (p : Params) (N n : Node) (hb : N.blks = n.blks) (g : Blk)
+theorem pool_maturity_fixed_agrees_of_tree (p : Params) (N n : Node) (hb : N.blks = n.blks) (g : Blk)
     (rest : List Blk) (s : UState) (H : HeadPath p n g N.head rest s) (hg0 : g.h = 0)
     (hm : 0 < p.maturity) (hpath : List Blk) (hH : N.path N.hhead = some hpath) (t : TxA)
     (htree : ∀ b, hpath[rest.length]? = some b → b.id = N.head →
@@ -191,7 +191,7 @@ theorem isPath_prefix {n : Node} {id : Nat} {l : List Blk} (h : IsPath n id l) :
       rw [this]
       exact IsPath.child id b par l hb hp hl
 
-/-- **the tree property** used by `pool_maturity_fixed_agrees_partial` -/
+/-- **the tree property** used by `pool_maturity_fixed_agrees_of_tree` -/
 theorem header_chain_through_head {n : Node} {head : Nat} {P hpath : List Blk} {hhead : Nat}
     (hP : IsPath n head P) (hH : n.path hhead = some hpath) (b : Blk)
     (hx : hpath[P.length - 1]? = some b) (hid : b.id = head) (hne : P ≠ []) :
@@ -213,7 +213,7 @@ theorem pool_maturity_fixed_agrees (p : Params) (N n : Node) (hb : N.blks = n.bl
     (rest : List Blk) (s : UState) (H : HeadPath p n g N.head rest s) (hg0 : g.h = 0)
     (hm : 0 < p.maturity) (hpath : List Blk) (hH : N.path N.hhead = some hpath) (t : TxA) :
     N.poolMaturityFixed p t = txMaturity p s t := by
-  refine pool_maturity_fixed_agrees_partial p N n hb g rest s H hg0 hm hpath hH t ?_
+  refine pool_maturity_fixed_agrees_of_tree p N n hb g rest s H hg0 hm hpath hH t ?_
   intro b hx hid
   have hH' : n.path N.hhead = some hpath := by rw [← path_congr hb]; exact hH
   have := header_chain_through_head (P := g :: rest) H.isPath hH' b (by simpa using hx) hid (by simp)
@@ -238,7 +238,7 @@ theorem pool_maturity_fixed_on_competing_fork (p : Params) (N n : Node) (hb : N.
     (hm : 0 < p.maturity) (hpath : List Blk) (hH : N.path N.hhead = some hpath) (t : TxA)
     (hfork : ∀ b, hpath[rest.length]? = some b → b.id ≠ N.head) :
     N.poolMaturityFixed p t = txMaturity p s t :=
-  pool_maturity_fixed_agrees_partial p N n hb g rest s H hg0 hm hpath hH t
+  pool_maturity_fixed_agrees_of_tree p N n hb g rest s H hg0 hm hpath hH t
     (fun b hx hid => absurd hid (hfork b hx))
 
 /-- the answer is a function of the blocks and the BODY head only: two nodes that differ in their
